@@ -245,20 +245,22 @@ pub fn gen_recorder(rng: &mut Rng, cfg: &GenCfg) -> RecorderSpec {
     let size = cfg.size.unwrap_or_else(|| match rng.below(100) {
         0..=19 => SizeClass::Tiny,
         20..=74 => SizeClass::Small,
-        75..=96 => SizeClass::Medium,
-        _ => {
-            if cfg.allow_large {
-                SizeClass::Large
-            } else {
-                SizeClass::Medium
-            }
-        }
+        75..=98 => SizeClass::Medium,
+        _ => SizeClass::Large,
     });
     let n = match size {
         SizeClass::Tiny => rng.usize_below(4),
         SizeClass::Small => 1 + rng.usize_below(40),
         SizeClass::Medium => 41 + rng.usize_below(360),
-        SizeClass::Large => 1025 + rng.usize_below(3000),
+        // more than 1024 rows crosses the initial column capacity; the quick tier keeps these runs
+        // short (just past the boundary), the thorough tier goes to ~4000 rows
+        SizeClass::Large => {
+            if cfg.allow_large {
+                1025 + rng.usize_below(3000)
+            } else {
+                1020 + rng.usize_below(40)
+            }
+        }
     }
     .max(cfg.min_frames);
     let frames = gen_frames(rng, v, &ports, n);
